@@ -298,6 +298,21 @@ def main(run, tier):
                         run.failed('rt.indent', 'E4/bounded', 'indent=%r | %s' % (s, src),
                                    dict(source=src, indent=s, with_comments=wc, problem=why), observed=why,
                                    required='each line = indent x depth; one final newline', replayed=True)
+    # the source-level helper (calmjs.parse.es5.pretty_print) with the indentation string given by position and by keyword
+    helper = importlib.import_module('calmjs.parse').es5
+    for s in INDENTS:
+        for src in ('function f(a) { if (a) { return {b: 1}; } }', 'switch (a) { case 1: b; default: { c; } }'):
+            want = unparsers.pretty_print(es5.Parser().parse(src), indent_str=s)
+            for label, call in (('positional', lambda: helper.pretty_print(src, s)), ('keyword', lambda: helper.pretty_print(src, indent_str=s))):
+                n += 1
+                ok += 1
+                try:
+                    got = call()
+                except Exception as e:
+                    got = 'raised %r' % (e,)
+                if got != want:
+                    run.failed('rt.indent.helper', 'E4/bounded', '%s indent=%r | %s' % (label, s, src), dict(indent=s, source=src, got=got, want=want),
+                               observed=repr(got)[:200], required='es5.pretty_print(source, indent) indents with the given string: %r' % want[:120], replayed=True)
     for s in INDENTS:
         printer = unparsers.pretty_printer(indent_str=s)
         t1 = es5.Parser().parse('function f() { if (a) { b; } }')
@@ -327,6 +342,14 @@ def replay(data):
     w = data.get('witness') or {}
     g = core.G()
     pr = printing.Printing(g)
+    if 'source' in w and 'want' in w:
+        helper = importlib.import_module('calmjs.parse').es5
+        unparsers = importlib.import_module('calmjs.parse.unparsers.es5')
+        es5 = importlib.import_module('calmjs.parse.parsers.es5')
+        want = unparsers.pretty_print(es5.Parser().parse(w['source']), indent_str=w['indent'])
+        got = [helper.pretty_print(w['source'], w['indent']), helper.pretty_print(w['source'], indent_str=w['indent'])]
+        print(repr(w['source']), repr(w['indent']), [g == want for g in got])
+        return 0 if all(g == want for g in got) else 1
     if 'source' in w:
         es5 = importlib.import_module('calmjs.parse.parsers.es5')
         unparsers = importlib.import_module('calmjs.parse.unparsers.es5')
